@@ -150,7 +150,7 @@ func (e EncStr) Value(ctx context.Context, field *schema.Field, dst reflect.Valu
 
 // shared reusable handles carrying chain state with spare slice capacity (3 joins / 3
 // orders): every goroutine derives its own chain from them
-type sharedHandles struct{ joins, order *gorm.DB }
+type sharedHandles struct{ joins, order, orFirst *gorm.DB }
 
 var sharedOf sync.Map // root *gorm.DB -> *sharedHandles
 
@@ -168,6 +168,9 @@ func makeShared(root *gorm.DB) {
 			Joins("LEFT JOIN pets p0 ON p0.user_id = users.id AND p0.id < 0").
 			Session(&gorm.Session{}),
 		order: root.Table("solos").Order("n").Order("v").Order("id").Session(&gorm.Session{}),
+		// conditions whose first one is a single Or (legal: it reads as Where): building the WHERE clause reorders
+		// them for this statement, and every goroutine builds from the same handle
+		orFirst: root.Table("solos").Or("v <> ?", "none").Where("id < ?", 0).Session(&gorm.Session{}),
 	}
 	sharedOf.Store(root, sh)
 }
@@ -317,6 +320,25 @@ var steps = []step{
 		err := sh.joins.Joins("LEFT JOIN toys t ON t.owner_id = users.id AND t.owner_type = 'users' AND t.name = ?", fmt.Sprint("t", b+10)).
 			Where("users.id >= ? AND users.id < ?", b, b+1000).Select("users.id AS id, t.name AS name").Order("users.id").Scan(&out).Error
 		return fmt.Sprintf("%s %v", fmtErr(err), out)
+	}},
+	{"SharedOrFirst", func(db *gorm.DB, b int64) string {
+		sh := getShared(db)
+		if sh == nil {
+			return "no shared handle"
+		}
+		out := ""
+		for i := 0; i < 3; i++ {
+			var vs []string
+			var n int64
+			err := sh.orFirst.Where("id >= ? AND id < ?", b, b+1000).Order("id").Pluck("v", &vs).Error
+			err2 := sh.orFirst.Where("id >= ? AND id < ?", b, b+1000).Count(&n).Error
+			// ... and straight from the handle, with nothing added (the statement then builds from the handle's own
+			// list of conditions; the rows are everybody's, so only the outcome of the call is compared)
+			var all []string
+			err3 := sh.orFirst.Order("id").Limit(2).Pluck("v", &all).Error
+			out += fmt.Sprintf("%s %s %s %v %d;", fmtErr(err), fmtErr(err2), fmtErr(err3), vs, n)
+		}
+		return out
 	}},
 	{"SharedOrder", func(db *gorm.DB, b int64) string {
 		sh := getShared(db)
@@ -667,7 +689,7 @@ func run(c *core.Ctx) {
 		for g := range progs {
 			p := []int{idx["CreateSolo"]}
 			for n := r.Range(4, 8); n > 0; n-- {
-				p = append(p, idx[core.Pick(r, []string{"FindSolos", "FirstSolo", "FindSolos"})])
+				p = append(p, idx[core.Pick(r, []string{"FindSolos", "FirstSolo", "FindSolos", "SharedOrFirst"})])
 			}
 			progs[g] = p
 		}
